@@ -44,7 +44,11 @@ fn parse_header(header: &str) -> Result<Header, ParseError> {
 
     let prefix = iterator.next().ok_or(ParseError::MissingPrefix)?;
 
-    if !prefix.is_empty() && PROTOCOL_PREFIX.starts_with(prefix) && header.ends_with(prefix) {
+    if !prefix.is_empty()
+        && suffix.is_none()
+        && PROTOCOL_PREFIX.starts_with(prefix)
+        && header.ends_with(prefix)
+    {
         return Err(ParseError::Partial);
     } else if prefix != PROTOCOL_PREFIX {
         return Err(ParseError::InvalidPrefix);
@@ -84,6 +88,7 @@ fn parse_header(header: &str) -> Result<Header, ParseError> {
         }
         Some(protocol)
             if !protocol.is_empty()
+                && suffix.is_none()
                 && header.ends_with(protocol)
                 && (TCP4.starts_with(protocol) || UNKNOWN.starts_with(protocol)) =>
         {
@@ -116,15 +121,25 @@ fn parse_addresses<'a, T: FromStr<Err = AddrParseError>, I: Iterator<Item = &'a 
     iterator: &mut Peekable<I>,
     open: bool,
 ) -> Result<(T, T, u16, u16), ParseError> {
-    let source_address = iterator.next().ok_or(ParseError::MissingSourceAddress)?;
+    // Once the carriage return is present the line cannot grow: an absent field is an empty one.
+    let absent = if open { None } else { Some("") };
+
+    let source_address = iterator
+        .next()
+        .or(absent)
+        .ok_or(ParseError::MissingSourceAddress)?;
     let destination_address = iterator
         .next()
+        .or(absent)
         .ok_or(ParseError::MissingDestinationAddress)?;
-    let source_port = iterator.next().ok_or(ParseError::MissingSourcePort)?;
+    let source_port = iterator
+        .next()
+        .or(absent)
+        .ok_or(ParseError::MissingSourcePort)?;
     let destination_port = match iterator.next() {
         // The input ends right after the separator: the port has not arrived yet.
         Some(port) if port.is_empty() && open && iterator.peek().is_none() => None,
-        port => port,
+        port => port.or(absent),
     }
     .ok_or(ParseError::MissingDestinationPort)?;
 
